@@ -1,4 +1,4 @@
-package main
+package embx
 
 // calls: structure-aware exploration of EVERY embedded contract method under each spork regime on a real node.
 // Oracle = the statement of C09 evaluated on the implementation: an accepted send to a contract gets a receive
@@ -87,18 +87,22 @@ func resetSporks() {
 }
 
 type world struct {
-	nd      *Node
-	rng     *rand.Rand
-	out     *Out
-	regime  string
-	senders []*wallet.KeyPair
-	hashes  []types.Hash               // ids of interest: hashes of accepted sends
-	tokens  []types.ZenonTokenStandard // ZNN, QSR + issued
-	names   []string
-	pre     [][]byte // htlc preimages used
-	made    map[string][]madeEntry // accepted calls per contract.method, to aim later calls at existing entries
-	dead    bool     // a receive panicked / failed internally: the inbox is wedged, history abandoned
-	pending int
+	nd        *Node
+	rng       *rand.Rand
+	out       *Out
+	regime    string
+	senders   []*wallet.KeyPair
+	hashes    []types.Hash               // ids of interest: hashes of accepted sends
+	tokens    []types.ZenonTokenStandard // ZNN, QSR + issued
+	names     []string
+	pre       [][]byte               // htlc preimages used
+	made      map[string][]madeEntry // accepted calls per contract.method, to aim later calls at existing entries
+	locks     bool                   // C10 mode: backing + payout oracles, sentinel/pillar models
+	paidOut   map[string]bool        // entries already paid out (never twice)
+	fusedBase map[types.Address]*big.Int
+	fusedInit bool
+	dead      bool // a receive panicked / failed internally: the inbox is wedged, history abandoned
+	pending   int
 }
 
 type madeEntry struct {
@@ -198,6 +202,9 @@ func (w *world) settle() {
 			w.dead = true
 			return
 		}
+		if w.locks {
+			w.checkBacked()
+		}
 		progressed := false
 		for _, c := range contracts {
 			for !w.dead {
@@ -221,6 +228,10 @@ func (w *world) receiveOne(c *contractDef, s *nom.AccountBlock) {
 	key := c.Name + "." + mname
 	balBefore, _ := w.nd.Ch.GetFrontierAccountStore(c.Addr).GetBalance(s.TokenStandard)
 	pre := w.embBefore(c, s)
+	var rel *release
+	if w.locks {
+		rel = w.expectedRelease(c, s)
+	}
 	exec, err, pv := w.nd.AutoReceive(s)
 	d := blockDetail(s)
 	if pv != nil {
@@ -284,6 +295,18 @@ func (w *world) receiveOne(c *contractDef, s *nom.AccountBlock) {
 	out.Oracle(true, "receive-block-not-insertable", nil)
 	if ma, e := w.nd.Ch.GetFrontierMomentumStore().GetMomentumByHeight(blk.MomentumAcknowledged.Height); e == nil && ma != nil {
 		w.embAfter(c, s, pre, ma, exec.ReturnedError, blk)
+		if w.locks && exec.ReturnedError == nil {
+			if isReleaseMethod(c, mname) {
+				w.checkRelease(c, s, rel, blk, ma)
+			} else if c.Name == "stake" || c.Name == "plasma" || c.Name == "htlc" || c.Name == "pillar" || c.Name == "sentinel" {
+				// any other applied call of a lock contract moves value only to the token contract (burn of consumed QSR)
+				ok := true
+				for _, x := range blk.DescendantBlocks {
+					ok = ok && (x.Amount.Sign() == 0 || x.ToAddress == types.TokenContract)
+				}
+				out.Oracle(ok, "payout-by-non-release-method", d)
+			}
+		}
 	}
 	// the inbox cursor moved by exactly one: the head is now a different block
 	h2 := w.nd.InboxHead(c.Addr)
@@ -477,8 +500,12 @@ func (w *world) genArg(t abi.Type, name string) interface{} {
 
 // natural (token, amount) of a method; boundary classes are mixed in by the caller
 func (w *world) naturalPayment(c *contractDef, m string) (types.ZenonTokenStandard, *big.Int) {
-	z := func(v *big.Int) (types.ZenonTokenStandard, *big.Int) { return types.ZnnTokenStandard, new(big.Int).Set(v) }
-	q := func(v *big.Int) (types.ZenonTokenStandard, *big.Int) { return types.QsrTokenStandard, new(big.Int).Set(v) }
+	z := func(v *big.Int) (types.ZenonTokenStandard, *big.Int) {
+		return types.ZnnTokenStandard, new(big.Int).Set(v)
+	}
+	q := func(v *big.Int) (types.ZenonTokenStandard, *big.Int) {
+		return types.QsrTokenStandard, new(big.Int).Set(v)
+	}
 	k := big.NewInt(int64(1 + w.rng.Intn(20)))
 	switch m {
 	case definition.FuseMethodName:
@@ -502,9 +529,10 @@ func (w *world) naturalPayment(c *contractDef, m string) (types.ZenonTokenStanda
 	return types.ZnnTokenStandard, big.NewInt(0)
 }
 
-func (w *world) randomCall() {
+func (w *world) randomCall() { w.randomCallTo(&contracts[w.rng.Intn(len(contracts))]) }
+
+func (w *world) randomCallTo(c *contractDef) {
 	rng := w.rng
-	c := &contracts[rng.Intn(len(contracts))]
 	names := methodNames(c.ABI)
 	mname := names[rng.Intn(len(names))]
 	m := c.ABI.Methods[mname]
@@ -747,7 +775,7 @@ func callsHistory(rng *rand.Rand, out *Out, regime string, steps int) {
 	_ = bytes.Equal
 }
 
-func runCalls(rng *rand.Rand, n int, out *Out, _ []string) {
+func RunCalls(rng *rand.Rand, n int, out *Out, _ []string) {
 	shortenConstants()
 	for h := 0; h < n; h++ {
 		callsHistory(rng, out, regimes[h%len(regimes)], 60+rng.Intn(60))
